@@ -36,7 +36,9 @@ def _strategy():
                 if stt == "wait_veto":
                     a = 129 + (a % 100)
                     a |= 1
-                cas.append({"state": stt, "addr": a})
+                ncb = draw(st.sampled_from([1, 1, 2, 3]))          # request callbacks of this CA ...
+                one = draw(st.sampled_from([None, None, 0, 1]))   # ... one of which may unsubscribe itself at its first call
+                cas.append({"state": stt, "addr": a, "ncb": ncb, "oneshot": one if (one is not None and one < ncb) else None})
             stacks.append(cas)
         return {"stacks": stacks,
                 "req_has_addr": draw(st.sampled_from([True, True, False])),
@@ -53,7 +55,8 @@ class C14:
                  "addresses, oracle = reference dispatch table over public CA state")
     RULE = ("a case is a configuration: requester with/without address, 1-2 responder stacks with 1-3 CAs each in a generated "
             "claim state (bypassed, not started, waiting for veto, operational after claiming, cannot-claim after a lost contest, "
-            "moved to the next address after a lost contest), 3-4 requested PGNs (always 0xEE00, boundaries of the 18-bit space "
+            "moved to the next address after a lost contest) and 1-3 request callbacks (one of which may unsubscribe itself at its first "
+            "call), 3-4 requested PGNs (always 0xEE00, boundaries of the 18-bit space "
             "incl. data page 1, random) ; inside the case every destination 0..255 is requested for every PGN ('subruns'); "
             "non-trivial = configuration with at least one address-less responder CA or at least two responder CAs; distinct = "
             "distinct configurations; exhaustive over destinations per configuration")
@@ -98,6 +101,7 @@ class C14:
             raw = simbus.RawNode(w.bus, "X")
             resp = []       # (stack, name, ca, name value, cfg)
             calls = []
+            registered = set()   # (stack, ca, callback index) currently subscribed
             for i, cas in enumerate(p["stacks"]):
                 stk = w.stack("S%d" % i, dll="j1939-21")
                 for k, c in enumerate(cas):
@@ -105,7 +109,16 @@ class C14:
                     if c["state"] == "moved":
                         nv |= 1 << 63
                     ca = stk.add_ca("c%d" % k, nv, c["addr"], bypass=(c["state"] == "bypass"))
-                    ca.subscribe_request((lambda i=i, k=k: (lambda src, dest, pgn: calls.append((i, k, src, dest, pgn))))())
+                    for m in range(c.get("ncb", 1)):
+                        def mk(i=i, k=k, m=m, ca=ca, one=(c.get("oneshot") == m)):
+                            def cb(src, dest, pgn):
+                                calls.append((i, k, m, src, dest, pgn))
+                                if one and (i, k, m) in registered:
+                                    registered.discard((i, k, m))
+                                    ca.unsubscribe_request(cb)
+                            return cb
+                        registered.add((i, k, m))
+                        ca.subscribe_request(mk())
                     resp.append((stk, "S%d.c%d" % (i, k), ca, nv, c))
             # scripted prefixes
             for (stk, nm, ca, nv, c) in resp:
@@ -130,6 +143,7 @@ class C14:
             for pgn in p["pgns"]:
                 for dest in order:
                     own = {nm: (ca.state, ca.device_address) for (stk, nm, ca, nv, c) in resp}
+                    reg0 = set(registered)
                     calls.clear()
                     k0 = len(w.bus.log)
                     exc = None
@@ -167,7 +181,7 @@ class C14:
                         stt, adr = own[nm]
                         if stt == State.NORMAL and (dest == 255 or adr == dest):
                             owners.append(nm)
-                    got_calls = sorted(("S%d.c%d" % (i, k), s_, d_, g_) for (i, k, s_, d_, g_) in calls)
+                    got_calls = sorted(("S%d.c%d#%d" % (i, k, m), s_, d_, g_) for (i, k, m, s_, d_, g_) in calls)
                     claims = [(e.node, e.can_id & 0xFF, bytes(e.data)) for e in new if e.node != "Q" and ((e.can_id >> 16) & 0xFF) == 0xEE]
                     others = [e for e in new if e.node not in ("Q",) and ((e.can_id >> 16) & 0xFF) != 0xEE]
                     if pgn == 0xEE00:
@@ -181,7 +195,7 @@ class C14:
                               (dest, [(n, a, d.hex()) for n, a, d in sorted(claims)], [(n, a, d.hex()) for n, a, d in exp_claims]), site)
                             break
                     else:
-                        exp_calls = sorted((nm, src, dest, pgn) for nm in owners)
+                        exp_calls = sorted(("S%d.c%d#%d" % (i, k, m), src, dest, pgn) for (i, k, m) in reg0 if "S%d.c%d" % (i, k) in owners)
                         if got_calls != exp_calls:
                             miss = [c for c in exp_calls if c not in got_calls]
                             extra = [c for c in got_calls if c not in exp_calls]
